@@ -145,6 +145,7 @@ def run(ctx):
                        {"api": "brew", "est": c["est"], "label_enc": c["label_enc"], "lower_better": c["lower_better"], "fmt": c["fmt"],
                         "override": c["override"], "folds": c["folds"], "seed": c["seed"], "raised": t["raised"].split(":")[0],
                         "accepted_vs_feature": info[:2]})
+    ctx.cov["brew_runs_with_non_finite_scores_not_judged"] = sum(1 for t in btr if any(x["nan"] for x in t["scores"]))
     ctx.cov["brew_runs_returning_best_feature"] = nfb
     ctx.cov["brew_runs_returning_learned_scores_at_least_as_good"] = nlearn
     cv = ctx.validate("ConfTrace", "Trace.cfg", ctr)
